@@ -198,6 +198,9 @@ func runC11(c *C11Case) (string, c11Facts) {
 }
 
 func describeCall(c *Call) string {
+	if c.H != nil {
+		return "helper " + c.H.Name
+	}
 	if c.V != nil {
 		return fmt.Sprintf("%s %s %v", c.V.Carrier, c.V.T.K, c.V.Rules)
 	}
@@ -223,7 +226,9 @@ func genC11Case(t *rapid.T) *C11Case {
 	}
 	n := rapid.IntRange(2, 10).Draw(t, "poolSize")
 	for i := 0; i < n; i++ {
-		switch rapid.IntRange(0, 7).Draw(t, "specKind") {
+		switch rapid.IntRange(0, 8).Draw(t, "specKind") {
+		case 8: // exported helpers run next to the validations (shared buffer pool), incl. the JSON dumper's error path
+			c.Pool = append(c.Pool, &Call{H: &HelperCall{Name: rapid.SampledFrom([]string{"dump", "dumpjson", "dumpjson-bad", "dumpjson-bad", "explain", "genkv", "split", "strescape"}).Draw(t, "helper"), Arg: genString(t, "harg", true)}})
 		case 6, 7: // one catalogue rule with several argument / value variants
 			rule := rapid.SampledFrom(c05RuleNames).Draw(t, "familyRule")
 			for j := rapid.IntRange(2, 4).Draw(t, "familySize"); j > 0; j-- {
